@@ -132,7 +132,7 @@ type Step struct {
 	State  State
 }
 
-var simHdr = regexp.MustCompile(`^\\\* <?(\w+)(\([^>]*\))? line \d+`)
+var simHdr = regexp.MustCompile(`^\\\* <?(\w+)(\(.*\))? line \d+, col`)
 var simHdr2 = regexp.MustCompile(`^STATE_\d+ ==`)
 
 // ParseSimFile reads one behaviour written by `tlc -simulate file=...`.
